@@ -10,7 +10,7 @@ from usim import Pipe, UnboundedPipe, time
 PROPERTY = 'C13'
 LEVEL = 'fault_enumeration'
 RULE = (
-    'pipe throughput in {1/2, 1, 3, 8, inf}, 1-8 participants each doing 1-3 transfers with '
+    'pipe throughput in {1/2, 1, 3, 8, inf (UnboundedPipe and Pipe(inf))}, 1-8 participants each doing 1-3 transfers with '
     'volumes {0, 1/8 .. 64} and limits {None, 1/4 .. 16, > throughput}, overlapping start '
     'times, joins and leaves mid-flight; un-injected run plus cancel / until-interrupt / close '
     'of a participant injected at activation boundaries (quick: sampled; thorough: every '
@@ -43,7 +43,7 @@ def n_cases(tier):
 
 def make_case(seed, index, tier):
     rng = random.Random('%s/%s/c13' % (seed, index))
-    throughput = rng.choice([0.5, 1, 1, 3, 3, 8, 'inf'])
+    throughput = rng.choice([0.5, 1, 1, 3, 3, 8, 'inf', 'pipe-inf'])
     users = []
     for number in range(rng.randint(1, 8)):
         rounds = []
@@ -73,7 +73,7 @@ class PipeChecker:
     def step_end(self, sess, loop, prev_time):
         pipe = self.pipe
         subs = getattr(pipe, '_subscriptions', None)
-        if subs is None or self.scenario['throughput'] == 'inf':
+        if subs is None or self.scenario['throughput'] in ('inf', 'pipe-inf'):
             return
         self.stats['subscription_checks'] += 1
         if len(subs) != self.inflight:
@@ -87,7 +87,8 @@ class PipeChecker:
 
     def judge(self):
         scenario = self.scenario
-        throughput = float('inf') if scenario['throughput'] == 'inf' else scenario['throughput']
+        throughput = float('inf') if scenario['throughput'] in ('inf', 'pipe-inf') \
+            else scenario['throughput']
         participants = {user['name']: [tuple(r) for r in user['rounds']]
                         for user in scenario['users']}
         removals = {}
@@ -128,6 +129,8 @@ def build_for(case):
     def build(arena):
         if scenario['throughput'] == 'inf':
             pipe = UnboundedPipe()
+        elif scenario['throughput'] == 'pipe-inf':
+            pipe = Pipe(throughput=float('inf'))    # a regular pipe that never congests
         else:
             pipe = Pipe(throughput=scenario['throughput'])
         checker = PipeChecker(arena, pipe, scenario)
